@@ -911,38 +911,6 @@ func engineA(c *core.Ctx) error {
 	return nil
 }
 
-// hasK1Shape: the tree is one of those excluded from the passing score:none
-// configurations (spec/MCSearchers.tla HasK1)
-func hasK1Shape(v any) bool {
-	m := tlaval.Map(v)
-	kids := func(name string) []any {
-		if x, ok := m[name]; ok {
-			return tlaval.List(x)
-		}
-		return nil
-	}
-	switch tlaval.Str(m["type"]) {
-	case "conj", "disj":
-		for _, k := range kids("qs") {
-			if hasK1Shape(k) {
-				return true
-			}
-		}
-	case "boolean":
-		if len(kids("must")) > 0 && len(kids("should")) >= 2 && tlaval.Int(m["min"]) == 1 {
-			return true
-		}
-		for _, n := range []string{"must", "should", "mustnot", "filter"} {
-			for _, k := range kids(n) {
-				if hasK1Shape(k) {
-					return true
-				}
-			}
-		}
-	}
-	return false
-}
-
 func engineAOne(c *core.Ctx, src srcA, maxCalls int) error {
 	cfg, layout := src.cfg, src.layout
 	var cases []caseA
@@ -994,14 +962,9 @@ func engineAOne(c *core.Ctx, src srcA, maxCalls int) error {
 							mu.Unlock()
 							return
 						}
-						// the model's results hold for the scored construction and,
-						// outside the K1 shapes, for the score:none one (TLC checks
-						// ResultOK for both)
-						opts := []search.SearcherOptions{{}}
-						if !hasK1Shape(cs.q) {
-							opts = append(opts, search.SearcherOptions{Score: "none"})
-						}
-						for _, o := range opts {
+						// the model's results hold for the scored and for the score:none
+						// construction (TLC checks ResultOK for both)
+						for _, o := range []search.SearcherOptions{{}, {Score: "none"}} {
 							got, err := a.RunProgram(bq, o, cs.prog)
 							if err != nil {
 								mu.Lock()
@@ -1044,6 +1007,9 @@ func engineAOne(c *core.Ctx, src srcA, maxCalls int) error {
 func reportA(c *core.Ctx, eng string, heap int, cs caseA, got []int, layout qs.Layout) {
 	qj := tlaval.ToJSON(cs.q)
 	sig := fmt.Sprintf("engineA:%s:%s", eng, shapeA(cs.q))
+	if strings.HasPrefix(eng, "scorch") && strings.HasSuffix(eng, "/none") && qs.HasK1ShapeTLA(cs.q) {
+		sig = qs.SigK1 // the C02 finding repaired in a0964f3 is back
+	}
 	what := fmt.Sprintf("engine %s (heap takeover %d): query %s over postings %v (layout %v): program %s returned %v; spec/Searchers.tla (checked against the contract) computes the r fields",
 		eng, heap, mustJSON(qj), cs.post, layout, mustJSON(cs.prog), got)
 	c.Violation(sig, what, map[string]any{"kind": "engineA", "engine": eng, "query": qj, "post": cs.post, "program": cs.prog, "got": got})
@@ -1163,7 +1129,7 @@ func modelFindingQ2(c *core.Ctx) error {
 		return err
 	}
 	reproduced := 0
-	for _, eng := range qs.Engines {
+	for _, eng := range []string{qs.EngScorch, qs.EngUpside} {
 		a, err := qs.BuildIndexA(eng, qs.Layout{Segs: []int{2, 1}}, "")
 		if err != nil {
 			return err
